@@ -488,8 +488,14 @@ func amqpFVal(r *Rand, depth int) sx.Sx {
 	case k == 4:
 		return sx.L(sx.A("l"), sx.I(int64(r.U64())))
 	case k == 5:
+		if r.Chance(15) { // NaN, +Inf, -Inf, the largest finite value, a denormal, -0
+			return sx.L(sx.A("f"), sx.U([]uint64{0x7fc00000, 0x7f800000, 0xff800000, 0x7f7fffff, 1, 0x80000000, 0x7f800001}[r.Intn(7)]))
+		}
 		return sx.L(sx.A("f"), sx.U(uint64(math.Float32bits(float32(r.Intn(1000))/8))))
 	case k == 6:
+		if r.Chance(15) {
+			return sx.L(sx.A("d"), sx.U([]uint64{0x7ff8000000000000, 0x7ff0000000000000, 0xfff0000000000000, 0x7fefffffffffffff, 1, 0x8000000000000000, 0x7ff0000000000001}[r.Intn(7)]))
+		}
 		return sx.L(sx.A("d"), sx.U(math.Float64bits(float64(r.Intn(100000))/16)))
 	case k == 7:
 		return sx.L(sx.A("D"), sx.N(r.Intn(5)), sx.I(int64(int32(r.U64()))))
